@@ -152,6 +152,45 @@ def jl_line(line):
     return dl(line)
 
 
+def split_dereg(outs):
+    """`dereg <id> <etag hex|->` (the ETag carried by the deregistration request Observation.Cancel wrote) is reported by the
+    harness next to the events the model knows; it is judged separately (etag_violations)."""
+    rest, deregs = [], []
+    for o in outs:
+        ev = o.split(" ; ")
+        d = [e for e in ev if e.startswith("dereg ")]
+        ev = [e for e in ev if not e.startswith("dereg ")]
+        rest.append(" ; ".join(ev) if ev else "none")
+        deregs.append(d)
+    return rest, deregs
+
+
+def tag_etag(tag):
+    """the ETag the harness puts on a message with this tag (every other tag carries one, of varying length)"""
+    c = ord(tag[0])
+    return ("%02x" % c) * (1 + c % 8) if c % 2 == 0 else None
+
+
+def etag_violations(case_lines, outs, deregs):
+    """RFC 7641 3.6 / the library's Cancel: the deregistration request carries the ETag of the latest notification that was
+    DELIVERED to the registration's callback with a sequence number and an ETag (byte-exact, whatever came before or after)."""
+    last = {}
+    bad = []
+    for k, (l, o, d) in enumerate(zip(case_lines, outs, deregs)):
+        for e in o.split(" ; "):
+            f = e.split()
+            if len(f) == 6 and f[0] == "cb" and f[3] != "-":
+                t = tag_etag(f[5])
+                if t is not None:
+                    last[f[1]] = t
+        for e in d:
+            f = e.split()
+            want = last.get(f[1], "-")
+            if f[2] != want:
+                bad.append((k, "deregistration request of registration %s carries ETag %s, the latest notification delivered with an ETag had %s" % (f[1], f[2], want)))
+    return bad
+
+
 def explore(ctx, art):
     rng = random.Random(ctx.seed)
     thorough = ctx.tier == "thorough"
@@ -170,6 +209,7 @@ def explore(ctx, art):
     impl = common.run_test_harness(ctx, art["test"], "TestC08", lines, timeout=1500)
     if impl is None or len(impl) != len(lines):
         return
+    impl, deregs = split_dereg(impl)
     model = judge = None
     if art.get("driver"):
         rc, model, _ = common.pipe_lines([art["driver"], "model"], [dl(l) for l in lines])
@@ -203,6 +243,17 @@ def explore(ctx, art):
             mism += 1
             if mism <= 3:
                 ctx.broken.append(("correspondence", "C08 model vs implementation", "case %d line `%s`: impl `%s` model `%s`" % (ci, l, o, model[i])))
+    # ETag of the deregistration requests, case by case
+    start = nvalid
+    nbad = 0
+    for ci, (cl, kinds) in enumerate(cases):
+        n = len(cl)
+        for k, what in etag_violations(cl, impl[start:start + n], deregs[start:start + n])[:1]:
+            nbad += 1
+            if nbad <= 6:
+                ctx.violations.append(common.Violation("observe", "C08:deregistration-etag", "%s: %s" % (cl[k], what),
+                                                       {"input": cl[:k + 1] + ["end"], "kinds": sorted(kinds)}))
+        start += n
     for ci, (i, what) in list(bad.items())[:8]:
         cl, kinds = cases[ci]
         # shrink: cut the case after the first failing line
@@ -244,9 +295,13 @@ def replay(ctx, rep):
         print("replay file names no failing input:", rep.get("no_longer_checks"))
         return 1
     impl = common.run_test_harness(ctx, art["test"], "TestC08", lines, tag="replay")
+    impl, deregs = split_dereg(impl)
     jl = [dl(l) if l.split()[0] in ("cfg", "valid", "end") else jl_line(l) + " | " + o for l, o in zip(lines, impl)]
     rc, judge, _ = common.pipe_lines([art["driver"], "judge"], jl)
     bad = 0
+    for k, what in etag_violations(lines, impl, deregs):
+        print("%s: %s" % (lines[k], what))
+        bad += 1
     for l, o, j in zip(lines, impl, judge):
         print("%s: implementation `%s`  judge `%s`" % (l, o, j))
         if (l.startswith("valid") and o != j) or j.startswith("violates"):
